@@ -357,6 +357,12 @@ def _boot_agg(aggname, keys):
         ratio = z3.If(den == 0, z3.RealVal(0), z3.ToReal(num_pred) / den) if z3.is_int(num_pred) else z3.If(den == 0, z3.RealVal(0), num_pred / den)
         if not top:
             h.ensures("C02.pred_margin_is_sum_of_unit_margins_over_turnout", z3.Implies(z3.And(rows, z3.Or(den != 0, num_pred == 0)), pm.t == ratio), replay=rp_id)
+        # C01, margin estimand: the counted-votes column of a group is the live margin of its attributable units
+        # divided by the group's predicted two-party turnout -- numerator and denominator over the SAME units
+        num_res = (mR if classification else mR + mT) + rN
+        rm = res.col("results_margin")
+        ratio_res = z3.If(den == 0, z3.RealVal(0), (z3.ToReal(num_res) if z3.is_int(num_res) else num_res) / den)
+        h.ensures("C01.results_margin_is_counted_margin_of_the_same_units_over_predicted_turnout", z3.Implies(z3.And(rows, z3.Or(den != 0, num_res == 0)), rm.t == ratio_res), replay=lambda ev: {"target": "verif_replays:bootstrap_counted_margin_replay", "args": [list(keys)], "check": "result['exc'] is None and result['ok']"})
         # lemma wavg_bounds (lean/FrameSums.lean): |Σ n_i| <= Σ d_i when |n_i| <= d_i pointwise
         for dn, dd, nm in ((dmR, dzR, "R"), (dmT, dzT, "T"), (dmN, dzN, "N")):
             lemma_abs(h, dn, dd, f"lemma.wavg_bounds.{nm}")
@@ -476,8 +482,9 @@ def _boot_int(aggname, keys):
         else:
             L = Rr = S = z3.BoolVal(False)
         free = z3.And(z3.Not(L), z3.Not(Rr), z3.Not(S))
-        h.ensures("uncalled_straddle", z3.Implies(z3.And(rows, free), z3.And(lo_a < pm.t, pm.t < up_a, lo_b < pm.t, pm.t < up_b)))
-        h.ensures("uncalled_nested_by_level", z3.Implies(z3.And(rows, free), z3.And(lo_b <= lo_a, up_a <= up_b)))
+        rpn = lambda ev: {"target": "verif_replays:bootstrap_interval_nesting_replay", "args": [], "check": "result['exc'] is None and result['ok']"}  # noqa: E731
+        h.ensures("uncalled_straddle", z3.Implies(z3.And(rows, free), z3.And(lo_a < pm.t, pm.t < up_a, lo_b < pm.t, pm.t < up_b)), replay=rpn)
+        h.ensures("uncalled_nested_by_level", z3.Implies(z3.And(rows, free), z3.And(lo_b <= lo_a, up_a <= up_b)), replay=rpn)
         h.ensures("lower_le_upper_unless_called_or_stopped", z3.Implies(z3.And(rows, free), lo_a <= up_a))
         if top:
             for nm, lo, up in (("a", lo_a, up_a), ("b", lo_b, up_b)):
